@@ -18,7 +18,7 @@ import sys
 import time
 
 ROOT = os.path.dirname(os.path.dirname(os.path.abspath(__file__)))
-REPO = "/repo"
+REPO = os.environ.get("VERIF_REPO", "/repo")
 ALL = ["C01", "C02", "C03", "C04", "C05", "C06", "C10", "C11", "C13", "C14", "C15", "C16"]
 
 
